@@ -6,7 +6,9 @@
 package main
 
 import (
+	"encoding/json"
 	"fmt"
+	"os"
 	"runtime"
 	"runtime/debug"
 	"strings"
@@ -440,7 +442,70 @@ func cfgClass(c config) string {
 	return c.mode.String() + "/" + mb + "/filter=" + c.filter
 }
 
+// replay re-executes exactly one recorded execution (configuration + choice sequence) with tracing on.
+func replay(path string) {
+	b, err := os.ReadFile(path)
+	if err != nil {
+		fmt.Println("cannot read replay file:", err)
+		os.Exit(2)
+	}
+	var art struct {
+		Detail struct {
+			Config  string `json:"config"`
+			Depth   int    `json:"depth"`
+			MaxLive int    `json:"max_live"`
+			Choices []int  `json:"choices"`
+		} `json:"detail"`
+	}
+	if err := json.Unmarshal(b, &art); err != nil || art.Detail.Config == "" {
+		fmt.Println("not a C14 replay artefact:", err)
+		os.Exit(2)
+	}
+	inputs := allInputs()
+	use := []input{inputs[0], inputs[1], inputs[2], inputs[3], inputs[5]}
+	if art.Detail.MaxLive == 0 {
+		art.Detail.MaxLive = 1
+	}
+	for _, cfg := range allConfigs() {
+		if cfg.String() != art.Detail.Config {
+			continue
+		}
+		for _, in := range [][]input{use, inputs} {
+			x := func() (x *vsync.Exec) {
+				defer func() {
+					if p := recover(); p != nil {
+						x = nil
+					}
+				}()
+				return vsync.RunOne(art.Detail.Choices, mkHarness(cfg, in, art.Detail.Depth, art.Detail.MaxLive, new(int64)))
+			}()
+			if x == nil {
+				continue // recorded with the other input set
+			}
+			for _, l := range x.Trace {
+				fmt.Println(l)
+			}
+			if len(x.Fails) > 0 {
+				for _, f := range x.Fails {
+					fmt.Printf("FAILURE %s: %s\n", f.Sig, f.Detail)
+				}
+				fmt.Printf("VIOLATION property=C14 replay=%s\n", path)
+				os.Exit(1)
+			}
+		}
+		fmt.Println("replayed execution shows no failure on the current tree")
+		os.Exit(0)
+	}
+	fmt.Println("unknown configuration in replay file")
+	os.Exit(2)
+}
+
 func main() {
+	for i, a := range os.Args {
+		if a == "--replay" && i+1 < len(os.Args) {
+			replay(os.Args[i+1])
+		}
+	}
 	if sh := ev.ShardFromArgs(); sh != nil {
 		worker(sh)
 		return
